@@ -62,6 +62,26 @@ Theorem C13_e_digit_count : forall (tl : bytes) pr, 0 < pr ->
 Proof. exact fmtE_frac_len. Qed.
 Print Assumptions C13_e_digit_count.
 
+(* Append for 'e' / 'E' with an explicit precision pr >= 0, end to end: the
+   output is the sign of x, then the 'e' layout (first digit, pr fraction
+   digits zero-filled, exponent) of the significant digits d0 :: tl of x1,
+   where x1 is x itself when x has at most pr+1 digits and otherwise x rounded
+   ONCE to pr+1 digits under x's own mode (result_spec).  The hypothesis
+   exp x < MaxExp excludes the overflow of the rounded copy (known finding K6). *)
+Theorem C13_append_e : forall buf x fmt pr,
+  WF x -> dform x = Ffinite -> (fmt = 101 \/ fmt = 69) -> exp x < MaxExp ->
+  mdigits (mant x) < 4294967296 - 18 -> 0 <= pr -> pr + 1 <= MaxPrec ->
+  exists x1 d0 tl,
+    SigDigits x1 (d0 :: tl) /\ dform x1 = Ffinite /\ neg x1 = neg x /\
+    ((forall n, MinPrec x = Some n -> n <= pr + 1) /\ x1 = x \/
+     (exists n, MinPrec x = Some n /\ pr + 1 < n) /\ result_spec (pr + 1) (dmode x) (neg x) (mag x) x1) /\
+    Append buf x fmt pr =
+      Some ((buf ++ sign_bytes (neg x)) ++ [d0] ++
+            (if 0 <? pr then 46 :: firstn (Z.to_nat pr) tl ++ zeros (pr - Z.min pr (zlen tl)) else []) ++
+            [fmt; e_sign (exp x1 - 1)] ++ exp_digits (exp x1 - 1)).
+Proof. exact append_e. Qed.
+Print Assumptions C13_append_e.
+
 (* Format: for every supported verb the output is at least `width` long. *)
 Theorem C13_format_width : forall x s verb out w,
   Format x s verb = Some out -> f_width s = Some w ->
@@ -75,14 +95,14 @@ Print Assumptions C13_format_width.
    C13_append : forall WF x, fmt in {e,E,f,g,G}, pr >= 0,
      Append buf x fmt pr = Some (buf ++ sign ++ Layout.fmt_spec fmt pr (digits of the
      Rounds image of x at the requested position)).
-   Closed parts: the rounding step in all three regimes (C13_round_step,
-   C13_round_step_id, C13_round_at_or_above) and the 'e' layout (C13_e_layout).
-   Missing: the fmtF layout lemma (integer part / zero filling / fraction
-   window), the %g selection (eprec, exponent thresholds -4 and eprec) as a
-   theorem, and the composition Append = layout o round (it needs SigDigits of
-   the rounded x1, which follows from its WF, and the case when the rounded
-   copy overflows to an infinity - known finding K6 shows the code is wrong
-   there).  Covered by correspondence and by the reference formatter of
+   Closed parts: the whole statement for e/E (C13_append_e); for f/g/G the
+   rounding step in all three regimes (C13_round_step, C13_round_step_id,
+   C13_round_at_or_above).
+   Missing: the fmtF layout lemma for an arbitrary precision (integer part /
+   zero filling / fraction window), the %g selection (eprec, exponent
+   thresholds -4 and eprec) as a theorem, and their composition with the
+   rounding step as in C13_append_e; the case when the rounded copy overflows
+   to an infinity is excluded (known finding K6: the code is wrong there).  Covered by correspondence and by the reference formatter of
    harness/props/textcommon.py (spec_text), itself validated against
    strconv.FormatFloat / fmt.Sprintf on exactly representable inputs.
 
